@@ -1,4 +1,5 @@
 """C19 -- coupled logistic-map network stays inside the unit interval."""
+import math
 import numpy as np
 
 import lib
@@ -30,6 +31,17 @@ def run(chk):
     for nbig in ([128, 150] if chk.tier == "quick" else [128, 129, 150, 200, 256, 300, 400]):
         confs.append(dict(n=nbig, p=float(rng.choice([0.02, 0.05, 0.1])), t=int(rng.integers(40, 120)),
                           r=float(rng.choice([3.99, 4.0, 3.7])), sigma=float(rng.choice([0.1, 0.5, 1.0])), seed=int(rng.integers(0, 10000))))
+    # single-node networks with every kind of edge probability (incl. the integer 1 and 1.0: "complete graph" on one node)
+    for pv in (0.0, 1.0, 1, 0.5):
+        confs.append(dict(n=1, p=pv, t=int(rng.integers(2, 40)), r=float(rng.choice([0.5, 2.5, 3.99, 4.0])),
+                          sigma=float(rng.choice([0.0, 0.3, 1.0])), seed=int(rng.integers(0, 10000))))
+    # contracting maps (0 < r < 1) run long enough for the states to decay through the subnormal range to exactly 0
+    for t in range(6 if chk.tier == "quick" else 120):
+        rv = float(rng.choice([0.05, 0.1, 0.3, 0.5, 0.9 * rng.random() + 0.01]))
+        steps = min(4000, int(340 / math.log10(1 / rv)) + int(rng.integers(20, 200)))
+        confs.append(dict(n=int(rng.integers(1, 5)), p=float(rng.choice([0.0, 0.5, 1.0])), t=steps, r=rv,
+                          sigma=float(rng.choice([0.0, 0.2, 1.0, rng.random()])), seed=int(rng.integers(0, 10000))))
+        chk.count("contracting_long_runs")
     for c in confs:
         XY, A = logisic_dynamics(**c)
         XY2, A2 = logisic_dynamics(**c)
@@ -49,6 +61,8 @@ def run(chk):
             fail = "the coupling matrix used in the update (transpose of the returned one) is not row-substochastic"
         pf.append(fail)
         rows = XY if XY.shape[0] * XY.shape[1] <= 500 else XY[:max(2, 500 // XY.shape[1])]
+        if full["t"] > 300:                       # long contracting runs: tiny values have 1000-bit rational literals; the first rows suffice for the
+            rows = XY[:25]                        # step-wise comparison, the predicate above has looked at the whole series
         if not np.all(np.isfinite(rows)):
             k = int(np.argwhere(~np.isfinite(rows))[0][0])
             rows = rows[:max(1, k)]
@@ -64,7 +78,7 @@ def run(chk):
     lib.correspond(chk, "stepwise_model_vs_impl", IMPORTS, "Q * Q * list (list Q) * list (list Q)",
                    f"check_traj_case {qlit(1e-12)}", cases, pf, lambda i: desc[i], shard=25, jobs=14, timeout=1500)
     chk.rule = ("logisic_dynamics called with the default arguments and with sampled (n 1..30, p in {0,...,1}, t 1..200, r in [0,4] incl. 0, "
-                "3.99, 4, sigma in [0,1] incl. 0 and 1, seeds). The map is chaotic, so trajectories are compared STEP-WISE: the exact-rational "
+                "3.99, 4, sigma in [0,1] incl. 0 and 1, seeds), single-node networks with p in {0, 0.5, 1.0, 1}, and contracting maps 0 < r < 1 run until the states have decayed through the subnormal range (t up to 4000). The map is chaotic, so trajectories are compared STEP-WISE: the exact-rational "
                 "model step applied to the implementation's own row t-1 must reproduce row t within 1e-12 (inside Coq), with the coupling "
                 "matrix recovered from the returned matrix. Predicate on the implementation: every value finite and in [0,1]. "
                 "Distinct = distinct argument tuple; non-trivial = at least one update step.")
